@@ -36,6 +36,8 @@ type typeInfo struct {
 	Recover func(x interface{}) ([]byte, error)
 	// Sign puts a valid signature of key on x (real signing code)
 	Sign func(x interface{}, key *ecdsa.PrivateKey) error
+	// Resign: the real public re-signing API; returns the NEW object it produces
+	Resign func(x interface{}, key *ecdsa.PrivateKey) (interface{}, error)
 	// Hashes: real hash methods whose stability across a round trip is part of the property
 	Hashes func(x interface{}) []string
 }
@@ -78,6 +80,9 @@ var registry = []typeInfo{
 			s, err := signWith(tx, k)
 			tx.Signature = s
 			return err
+		},
+		Resign: func(x interface{}, k *ecdsa.PrivateKey) (interface{}, error) {
+			return types.SignTx(x.(*types.Transaction), k)
 		},
 		Hashes: func(x interface{}) []string {
 			t := x.(*types.Transaction)
@@ -135,6 +140,9 @@ var registry = []typeInfo{
 			x.(*types.PublicFlipKey).Signature = s
 			return err
 		},
+		Resign: func(x interface{}, k *ecdsa.PrivateKey) (interface{}, error) {
+			return types.SignFlipKey(x.(*types.PublicFlipKey), k)
+		},
 		Hashes: func(x interface{}) []string { return []string{hx32(x.(*types.PublicFlipKey).Hash())} }},
 	{Name: "blockchain/types:PrivateFlipKeysPackage", New: func() interface{} { return new(types.PrivateFlipKeysPackage) }, Proto: "ProtoPrivateFlipKeysPackage", SigProto: "ProtoPrivateFlipKeysPackage.Data",
 		Recover: func(x interface{}) ([]byte, error) {
@@ -145,6 +153,9 @@ var registry = []typeInfo{
 			s, err := signWith(x.(*types.PrivateFlipKeysPackage), k)
 			x.(*types.PrivateFlipKeysPackage).Signature = s
 			return err
+		},
+		Resign: func(x interface{}, k *ecdsa.PrivateKey) (interface{}, error) {
+			return types.SignFlipKeysPackage(x.(*types.PrivateFlipKeysPackage), k)
 		},
 		Hashes: func(x interface{}) []string { return []string{hx16(x.(*types.PrivateFlipKeysPackage).Hash128())} }},
 	{Name: "blockchain/types:Block", New: func() interface{} { return new(types.Block) }, Proto: "ProtoBlock",
